@@ -55,6 +55,97 @@ def text_view(res):
             "keys": [[ns["key"], sorted(map(list, (p for p, _ in iter_bki(ns["keys"]))))] for ns in res["ok"]["nss"]]}
 
 
+DECL_MAIN = '''#![allow(unused_imports, non_snake_case, unused_variables, unused_braces, dead_code)]
+mod a { leptos_i18n::declare_locales! { %s } }
+mod b { leptos_i18n::declare_locales! { %s } }
+fn emit(id: &str, out: String) { println!("{}\\t{}", id, out.replace('\\n', "\\\\n")); }
+fn main() {
+%s
+}
+'''
+
+
+def declare_probe(ctx, rng, binp):
+    """the inline `declare_locales!` macro: the same translations declared twice with the keys of every block in two orders (a reference
+    written *after* a subkeys block, before it, inside it) must give the same texts, and the texts the file loader gives for that content"""
+    from . import probe
+    import shutil
+    locales = ["en", "fr"]
+    def block(l):
+        # (key, value) with value: str | dict (subkeys)
+        return [("title", f"[{l}] T {{{{ x }}}}"), ("menu", {"open": f"[{l}] open", "deep": {"leaf": f"[{l}] leaf {{{{ x }}}}", "rf": "<$t(title, {\"x\": \"in-deep\"})>"}}),
+                ("after_group", f"$t(menu.open) + $t(menu.deep.leaf, {{\"x\": \"A\"}})"), ("plain", f"[{l}] plain"),
+                ("grp2", {"k": f"[{l}] k", "r": "$t(plain)!"}), ("last", "$t(grp2.r) $t(after_group)")]
+    def perm(items, how):
+        items = list(items)
+        if how == "reversed":
+            items.reverse()
+        elif how == "shuffled":
+            items = rng.shuffle(items)
+        return [(k, perm(list(v.items()), how) if isinstance(v, dict) else v) for k, v in items]
+    def rust(items):
+        out = []
+        for k, v in items:
+            if isinstance(v, list):
+                out.append(f"{k}: {{ {rust(v)} }}")
+            else:
+                out.append(f"{k}: {json.dumps(v, ensure_ascii=False)}")
+        return ", ".join(out)
+    def decl(how):
+        head = 'path: leptos_i18n, default: "en", locales: ["en", "fr"], '
+        return head + ", ".join(f"{l}: {{ {rust(perm(block(l), how))} }}" for l in locales)
+    def tree(items):
+        return proj.O([(k, tree(list(v.items())) if isinstance(v, dict) else v) for k, v in items])
+    p = {"default": "en", "locales": locales, "all_locales": locales, "namespaces": None, "inherits": {},
+         "files": {(None, l): tree(block(l)) for l in locales}, "extra_cfg": False, "meta": {}}
+    (o,) = run_projects(ctx, binp, [p], want_model=False)
+    if "ok" not in o["ci"]:
+        raise HarnessError("the declare_locales! probe content is rejected by the file loader: " + str(o["impl"].get("result"))[:300])
+    ns_out = o["impl"]["result"]["ok"]["nss"][0]
+    paths = [("title",), ("menu", "open"), ("menu", "deep", "leaf"), ("menu", "deep", "rf"), ("after_group",), ("plain",), ("grp2", "k"), ("grp2", "r"), ("last",)]
+    lines, expected = [], {}
+    for m in ("a", "b"):
+        for l in locales:
+            for path in paths:
+                args = ', x = "X"' if path in (("title",), ("menu", "deep", "leaf")) else ""
+                pid = f"{m}:{l}:{'.'.join(path)}"
+                lines.append(f'    emit("{pid}", {m}::i18n::td_string!({m}::i18n::Locale::{l}, {".".join(path)}{args}).to_string());')
+                expected[pid] = pv_eval(Env(vars={"var_x": "X"}), locale_value_at(ns_out, l, path))
+    dirp = os.path.join(WORK, f"declprobe_{ctx.pid}")
+    if os.path.exists(dirp):
+        shutil.rmtree(dirp)
+    os.makedirs(os.path.join(dirp, "src"))
+    feats = ["json_files", "icu_compiled_data", "interpolate_display", "plurals", "format_datetime", "format_nums", "format_list", "format_currency", "ssr"]
+    with open(os.path.join(dirp, "Cargo.toml"), "w") as f:
+        f.write('[package]\nname = "declprobe"\nversion = "0.1.0"\nedition = "2021"\n\n[dependencies]\nleptos = { version = "0.7.7", features = ["ssr"] }\n'
+                'leptos_i18n = { path = "/repo/leptos_i18n", features = [' + ", ".join(json.dumps(x) for x in feats) + '] }\n\n[workspace]\n')
+    with open(os.path.join(dirp, "src", "main.rs"), "w") as f:
+        f.write(DECL_MAIN % (decl("written"), decl(rng.pick(["reversed", "shuffled"])), "\n".join(lines)))
+    shutil.copy(os.path.join(REPO, "Cargo.lock"), os.path.join(dirp, "Cargo.lock"))
+    rc, out, err = probe.run_crate(ctx, dirp)
+    case = {"declare_locales_a": decl("written"), "main_rs": open(os.path.join(dirp, "src", "main.rs")).read()[:3000]}
+    shutil.rmtree(dirp, ignore_errors=True)
+    ctx.count("declare_locales_probe")
+    if rc != 0:
+        errs = "\n".join(x for x in err.split("\n") if x.startswith("error") or "panicked" in x)[:1500]
+        report_violation(ctx, "determinism:declare_locales-rejects-one-key-order", {
+            "case": case, "implementation": errs or err[-1500:], "expected_by_spec": "both key orders compile and give the same texts",
+            "harness": "probe crate with two declare_locales! invocations"})
+        return
+    got = {}
+    for line in out.split("\n"):
+        if "\t" in line:
+            i, _, t = line.partition("\t")
+            got[i] = t.replace("\\n", "\n")
+    for pid, exp in expected.items():
+        ctx.seen({"declare_locales": pid}, nontrivial="$t" in str(case) )
+        if got.get(pid) != exp:
+            report_violation(ctx, "determinism:declare_locales-text-differs", {
+                "case": case, "probe": pid, "expected_by_spec": exp, "implementation": got.get(pid),
+                "why": "the same translations, declared inline with the keys in another order, or loaded from files, give the same text"})
+            return
+
+
 def has_integer_beyond_i64(p):
     def walk(j):
         if isinstance(j, dict):
@@ -151,6 +242,8 @@ def run(ctx):
             na, nb = (re.sub(r"verif_cg_\d+", "verif_cg", json.dumps(x)) for x in (a, b))     # scratch dir carries the pid
             if na != nb:
                 report_violation(ctx, "determinism:generated-code-differs-between-runs", {"case": project_text(p), "first": str(a)[:300], "second": str(b)[:300]})
+    # (e) the inline declaration macro under key reordering
+    declare_probe(ctx, rng, bins["json"])
     ctx.sample({"files": proj.file_list(projects[0]), "yaml": proj.file_list(projects[0], "yaml")[0][1][:300]})
     ctx.assumptions += PARSER_ASSUMPTIONS + ["YAML / JSON5 front-ends are oracles compared through the implementation's own dumps; a front-end specific decoding difference surfaces here, it is not proved absent"]
     finish_broken(ctx, f"{len(projects)} projects x runs x permutations x formats")
